@@ -55,6 +55,9 @@ class ExpectOracle(Contract):
     def effects(self, v):
         t = v.old.timeout
         log_event(v, 'expect', v.label, t)
+        if 'patterns0' not in v.g:
+            pl = v.old.pattern
+            v.g['patterns0'] = [pl.get(k) for k in range(pl.len)]       # the dialogue table of the first wait
 
 
 class SendlineOracle(Contract):
@@ -227,6 +230,14 @@ class Login(Contract):
         out.append(('C17:yes-only-to-the-host-key-question',
                     all(prev_expect(i) is not None and prev_expect(i)[1] == 'index-%d' % YES_IDX for i in sends_yes)))
         expects = [e for e in d if e[0] == 'expect']
+        # what counts as "a password prompt" / "the host-key question" when the caller does not say otherwise is part
+        # of login()'s documented signature; an over-permissive default answers something else with the secret
+        p0 = v.g.get('patterns0')
+        if p0 is not None and len(p0) > PASSWORD_IDX:
+            out.append(('C17:default-password-prompt-pattern-is-the-documented-one',
+                        eq(p0[PASSWORD_IDX], r'(?i)(?:password:)|(?:passphrase for key)') is True))
+            out.append(('C17:host-key-question-pattern-is-the-documented-one',
+                        eq(p0[YES_IDX], '(?i)are you sure you want to continue connecting') is True))
         # every wait has a finite timeout: the login timeout or the instance default (never None)
         out.append(('C17:every-wait-is-bounded', all(e[2] is not None for e in expects)))
         if v.raised is None:
